@@ -143,6 +143,9 @@ func runC10(r *Runner, g *Gen, tier string) string {
 		r.Do(codecOp("decm", cfg, t, "", v.Sexp(), A("zero")), nontrivialVal(t, v), "decm.fresh-after")
 	}
 	poolHistories(r, g, scale(tier, 150, 6000))
+	for _, n := range []int{1, 2, 3, 7, 20} {
+		r.Do(L(A("ptrkeys"), A(fmt.Sprint(n))), true, "ptrkeys")
+	}
 	// the protobuf repeated form appends: every (prior length, new length) around the growth steps 0 -> 8 -> 16
 	strs := func(n int, p string) *Val {
 		out := &Val{K: "l"}
@@ -387,6 +390,29 @@ func (g *Gen) reuseCase() (*TyDef, *Val, *Val) {
 	return t, prior, v
 }
 
+// presentButEmpty: the zero value of t, except that every pointer (at any depth
+// reachable without going through a nil) is non-nil: the fields are present in
+// the data but carry nothing.
+func presentButEmpty(t *TyDef) *Val {
+	u := t.under()
+	switch u.K {
+	case "ptr":
+		if u.Elem.under().K == "ptr" {
+			return zeroVal(t)
+		}
+		return &Val{K: "p", P: presentButEmpty(u.Elem)}
+	case "struct":
+		out := &Val{K: "r"}
+		for _, f := range u.Fields {
+			if fieldEncoded(f) {
+				out.L = append(out.L, presentButEmpty(f.T))
+			}
+		}
+		return out
+	}
+	return zeroVal(t)
+}
+
 // emptiedSlices: the value with its own slice (top level) or its slice-typed fields
 // (one level) emptied — what remains visible of a target after `v = v[:0]`.
 func emptiedSlices(t *TyDef, v *Val) *Val {
@@ -497,6 +523,9 @@ func runC03(r *Runner, g *Gen, tier string) string {
 		s2 := g.evolveType(s, 0)
 		b := 40
 		v := g.Value(s, &b)
+		if g.r.P(15) {
+			v = presentButEmpty(s) // every pointer set, everything it points to zero: present with nothing inside
+		}
 		var prior *Sexp = A("zero")
 		if g.r.P(50) {
 			b2 := 30
